@@ -37,3 +37,39 @@ def xor_post(d: "bytes", k: "bytes", r: "bytes") -> "bool":
 def byte_width(n: "int") -> "int":
     """minimal number of bytes of a non-negative integer (pack(n) without an explicit size)"""
     return (n.bit_length() + 7) // 8
+
+
+@spec
+def remove_char(s: "str", c: "int") -> "str":
+    """s with every occurrence of the character c removed (Python: s.replace(chr(c), ""))"""
+    if len(s) == 0:
+        return ""
+    return remove_char(s[:-1], c) + ("" if ord(s[-1]) == c else s[-1])
+
+
+@spec
+def sum_excl(s: "str", c: "int") -> "int":
+    """sum of the code points of s, not counting occurrences of the character c"""
+    if len(s) == 0:
+        return 0
+    return sum_excl(s[:-1], c) + (0 if ord(s[-1]) == c else ord(s[-1]))
+
+
+@spec
+def cs8(text: "str") -> "int":
+    """Cobalt Strike checksum8: sum of the characters (slashes ignored) modulo 256; 0 for fewer than 4 characters"""
+    if len(text) < 4:
+        return 0
+    return sum_excl(text, 47) % 256
+
+
+@spec
+def is_alnum(c: "int") -> "bool":
+    return (48 <= c and c <= 57) or (65 <= c and c <= 90) or (97 <= c and c <= 122)
+
+
+@spec
+def stager_x64_shape(u: "str") -> "bool":
+    """a slash followed by exactly four alphanumerics"""
+    return len(u) == 5 and ord(u[0]) == 47 and is_alnum(ord(u[1])) and is_alnum(ord(u[2])) and is_alnum(ord(u[3])) \
+        and is_alnum(ord(u[4]))
